@@ -73,6 +73,9 @@ def run(chk, tier, seed, replay=None):
                         break
                 else:
                     continue
+            if rng.random() < 0.3:
+                # shutdown noise on the child's fd 2 after its report
+                w.setdefault('env', {})['fd2_at_exit'] = ['bye', 'Exception ignored in: <x>']
             w['id'] = c['id'] + mode
             cid = w['id']
             cases.append({'id': cid, 'world': w, 'o': o, 'mode': 'cli'})
